@@ -25,9 +25,12 @@ from ..engine import (
     kwarg,
     norm,
     qualname_of,
+    slice_text,
     stmt_of,
     walk_no_nested,
 )
+from ..engine import _attach_parents
+from ..normal import clone, nfunc
 from ..report import Report
 
 EXP = "semantiva/contracts/expectations.py"
@@ -252,6 +255,126 @@ def _surely_not_dict(e: Optional[ast.AST], fn: ast.AST, _seen: Optional[Set[str]
     return False
 
 
+# --------------------------------------------------------------------------- node classes: what a classmethod returns
+class _Rename(ast.NodeTransformer):
+    def __init__(self, old: str, new: str):
+        self.old, self.new = old, new
+
+    def visit_Name(self, node: ast.Name):
+        return ast.copy_location(ast.Name(id=self.new, ctx=node.ctx), node) if node.id == self.old else node
+
+    def visit_arg(self, node: ast.arg):
+        if node.arg == self.old:
+            node.arg = self.new
+        return node
+
+
+def node_method(repo: Repo, qualname: str) -> ast.AST:
+    """Normal form of a node-class method (locals substituted, accumulate loops as comprehensions, helpers inlined)
+    with the receiver spelled `cls`, so that rules do not depend on local names or on how the value is staged."""
+    f = clone(nfunc(repo, NODES, qualname, copyprop="all", loops=True))
+    p0 = _first_param(f)
+    if p0 and p0 != "cls":
+        f = _Rename(p0, "cls").visit(f)
+    ast.fix_missing_locations(f)
+    _attach_parents(f)
+    return f
+
+
+def _flow(fn: ast.AST, expr: Optional[ast.AST], _seen: Optional[Set[str]] = None) -> List[ast.AST]:
+    """Nodes of *expr* and of everything assigned to the locals it reads (backward slice through plain assignments)."""
+    if expr is None:
+        return []
+    _seen = _seen if _seen is not None else set()
+    out = list(ast.walk(expr))
+    for nm in sorted({x.id for x in out if isinstance(x, ast.Name)}):
+        if nm in _seen:
+            continue
+        _seen.add(nm)
+        for v in assigned_value(fn, nm):
+            out.extend(_flow(fn, v, _seen))
+        # what is added to the local afterwards (nm.append(x) / nm.extend(xs) / nm += xs), with the loop
+        # iterables and guards that decide whether and how often that happens
+        for st in walk_no_nested(fn):
+            added: List[ast.AST] = []
+            if isinstance(st, ast.Expr) and isinstance(st.value, ast.Call) and isinstance(st.value.func, ast.Attribute) and st.value.func.attr in ("append", "extend", "insert", "add", "update") and isinstance(st.value.func.value, ast.Name) and st.value.func.value.id == nm:
+                added = list(st.value.args)
+            elif isinstance(st, ast.AugAssign) and isinstance(st.target, ast.Name) and st.target.id == nm:
+                added = [st.value]
+            if not added:
+                continue
+            child: ast.AST = st
+            for a in ancestors(st):
+                # `if <test>: continue` earlier in the same block decides whether this statement runs
+                for fld in ("body", "orelse", "finalbody"):
+                    blk = getattr(a, fld, None)
+                    if isinstance(blk, list) and any(x is child for x in blk):
+                        for prev in blk[: [i for i, x in enumerate(blk) if x is child][0]]:
+                            if isinstance(prev, ast.If) and prev.body and isinstance(prev.body[-1], (ast.Continue, ast.Break, ast.Return)):
+                                added.append(prev.test)
+                child = a
+                if a is fn:
+                    break
+                if isinstance(a, (ast.For, ast.AsyncFor)):
+                    added.append(a.iter)
+                elif isinstance(a, (ast.If, ast.While)):
+                    added.append(a.test)
+            for v in added:
+                out.extend(_flow(fn, v, _seen))
+    return out
+
+
+def _is_processor(fn: ast.AST, e: ast.AST, _seen: Optional[Set[str]] = None) -> bool:
+    """`cls.processor`, or a local that holds it."""
+    _seen = _seen if _seen is not None else set()
+    if isinstance(e, ast.Attribute) and e.attr == "processor" and isinstance(e.value, ast.Name) and e.value.id == "cls":
+        return True
+    if isinstance(e, ast.Name) and e.id not in _seen:
+        _seen.add(e.id)
+        vals = assigned_value(fn, e.id)
+        return bool(vals) and all(_is_processor(fn, v, _seen) for v in vals)
+    return False
+
+
+def returns_reading(fn: ast.AST, provider: str) -> Tuple[List[ast.Return], List[ast.Return]]:
+    """(returns whose value is computed from the wrapped processor's *provider*, the other returns).
+    The provider is read as `cls.processor.<provider>` or `getattr(cls.processor, "<provider>", ...)`."""
+    yes: List[ast.Return] = []
+    no: List[ast.Return] = []
+    for r in walk_no_nested(fn):
+        if not isinstance(r, ast.Return):
+            continue
+        hit = False
+        for n in _flow(fn, r.value):
+            if isinstance(n, ast.Attribute) and n.attr == provider and _is_processor(fn, n.value):
+                hit = True
+            elif isinstance(n, ast.Call) and isinstance(n.func, ast.Name) and n.func.id == "getattr" and len(n.args) >= 2 and isinstance(n.args[1], ast.Constant) and n.args[1].value == provider and _is_processor(fn, n.args[0]):
+                hit = True
+        (yes if hit else no).append(r)
+    return yes, no
+
+
+def _is_filter(test: ast.AST) -> str:
+    """'keep' when a true *test* keeps the element (comprehension condition, guard of the adding block), 'drop' when a
+    true *test* skips it (`not` of the former, or `if test: continue`), '' when it is not a filter."""
+    neg = False
+    for a in ancestors(test):
+        if isinstance(a, ast.UnaryOp) and isinstance(a.op, ast.Not):
+            neg = not neg
+            continue
+        if isinstance(a, ast.comprehension):
+            return ("drop" if neg else "keep") if any(test in ast.walk(x) for x in a.ifs) else ""
+        if isinstance(a, ast.If) and test in ast.walk(a.test):
+            skips = len(a.body) == 1 and isinstance(a.body[0], ast.Continue) and not a.orelse
+            return "drop" if (neg != skips) else "keep"
+        return ""
+    return ""
+
+
+def _in_handler(fn: ast.AST, node: ast.AST) -> bool:
+    return any(isinstance(a, ast.ExceptHandler) for a in ancestors(node))
+
+
 def run(repo: Repo, R: Report) -> None:
     R.assume(
         "inspect.getattr_static(cls, name) sees a classmethod object exactly when the template binds the name to classmethod(...) / @classmethod (directly or by inheritance from a base that does)",
@@ -352,32 +475,86 @@ def run(repo: Repo, R: Report) -> None:
         for meth, want in (("input_data_type", inp), ("output_data_type", outp)):
             if want is None:
                 continue
-            f = repo.func(NODES, f"{cname}.{meth}")
-            rets = [ast.unparse(n.value) for n in walk_no_nested(f) if isinstance(n, ast.Return) and n.value is not None]
-            is_cm = any(dotted_name(d) == "classmethod" for d in f.decorator_list)
-            R.check(rets == [want] and is_cm, r_md, NODES, f"{cname}.{meth}", f"@classmethod returning {want}", f"the node wrapper's {meth} does not mirror the processor ({rets}); SVA300-321 report an error for generated node classes", f.lineno)
+            f0 = repo.func(NODES, f"{cname}.{meth}")
+            f = node_method(repo, f"{cname}.{meth}")
+            rets = [ast.unparse(n.value) if n.value is not None else "None" for n in walk_no_nested(f) if isinstance(n, ast.Return)]
+            is_cm = any(dotted_name(d) == "classmethod" for d in f0.decorator_list)
+            R.check(bool(rets) and set(rets) == {want} and is_cm, r_md, NODES, f"{cname}.{meth}", f"@classmethod returning {want}", f"the node wrapper's {meth} does not mirror the processor ({rets}); SVA300-321 report an error for generated node classes", f0.lineno)
+
+    # the metadata block of a node class is guarded by `assert hasattr(cls.processor, "<attr>")`: the asserted
+    # attribute must exist on the component kind the class says it wraps, else the block is skipped for every
+    # concrete node class and its metadata never carries the mirrored types / injected keys
+    r_guard = R.rule("C16-D2-metadata-guard-matches-kind", "an `assert hasattr(cls.processor, X)` guarding a node class's metadata names an attribute that the declared wrapped component kind defines", 6)
+    nodes_mod0 = repo.module(NODES)
+    for qn, node in sorted(nodes_mod0.defs.items()):
+        if not (isinstance(node, ast.ClassDef) and "." not in qn):
+            continue
+        dm = next((st for st in node.body if isinstance(st, FuncNode) and st.name == "_define_metadata"), None)
+        if dm is None:
+            continue
+        kinds = {v.value for d in ast.walk(dm) if isinstance(d, ast.Dict) for k, v in zip(d.keys, d.values) if isinstance(k, ast.Constant) and k.value == "wraps_component_type" and isinstance(v, ast.Constant)}
+        if len(kinds) != 1:
+            continue
+        kind = next(iter(kinds))
+        kdefs = [(m, c) for m, q, c in repo.all_classes() if q == kind]
+        if len(kdefs) != 1:
+            continue
+        km, kc = kdefs[0]
+        repo.consulted.add(km.rel)
+        for a in ast.walk(dm):
+            if isinstance(a, ast.Assert) and isinstance(a.test, ast.Call) and call_name(a.test) == "hasattr" and len(a.test.args) == 2 and isinstance(a.test.args[1], ast.Constant) and "processor" in ast.unparse(a.test.args[0]):
+                attr = a.test.args[1].value
+                defined = repo.method(km, kc, attr) is not None or any(
+                    isinstance(st, (ast.Assign, ast.AnnAssign)) and any(isinstance(t, ast.Name) and t.id == attr for t in (st.targets if isinstance(st, ast.Assign) else [st.target]))
+                    for _m, c in repo.mro(km, kc) for st in c.body)
+                R.check(defined, r_guard, NODES, f"{qn}._define_metadata", norm(a), f"`{kind}` (the declared wrapped kind) defines no `{attr}`: the assertion fails for every concrete node class, the surrounding handler swallows it, and the node metadata never contains the wrapped component, its data types or its injected keys", a.lineno)
 
     # ------------------------------------------------------------------ D3
     r_ck = R.rule("C16-D3-created-keys-mirror", "node get_created_keys include the wrapped processor's created keys next to any node-level key, as a list without duplicates", 5)
-    f = repo.func(NODES, "_DataOperationNode.get_created_keys")
-    R.check([ast.unparse(n.value) for n in walk_no_nested(f) if isinstance(n, ast.Return)] == ["cls.processor.get_created_keys()"], r_ck, NODES, "_DataOperationNode.get_created_keys", "return cls.processor.get_created_keys()", "operation nodes do not report the keys their processor creates", f.lineno)
-    f = repo.func(NODES, "_ContextProcessorNode.get_created_keys")
-    R.check("cls.processor.get_created_keys()" in ast.unparse(f), r_ck, NODES, "_ContextProcessorNode.get_created_keys", "return cls.processor.get_created_keys()", "context-processor nodes do not report the keys their processor creates", f.lineno)
-    f = repo.func(NODES, "_PayloadSourceNode.get_created_keys")
-    R.check("cls.processor.injected_context_keys()" in ast.unparse(f), r_ck, NODES, "_PayloadSourceNode.get_created_keys", "return cls.processor.injected_context_keys()", "payload-source nodes do not report the keys their source injects", f.lineno)
-    f = repo.func(NODES, "_ProbeContextInjectorNode.get_created_keys")
-    src = ast.unparse(f)
-    has_proc = "cls.processor" in src and "get_created_keys" in src
-    rets = [n.value for n in walk_no_nested(f) if isinstance(n, ast.Return) and n.value is not None]
-    uniq = False
-    for r in rets:
-        txt = ast.unparse(r)
-        # context_key + [k for k in processor_keys if k != cls.context_key]  /  dedupe over the whole list
-        filt = any(isinstance(lc, ast.ListComp) and lc.generators[0].ifs and "cls.context_key" in ast.unparse(lc.generators[0].ifs[0]) and isinstance(lc.generators[0].ifs[0], ast.Compare) and isinstance(lc.generators[0].ifs[0].ops[0], (ast.NotEq, ast.NotIn)) for lc in ast.walk(r))
-        whole = any(isinstance(c, ast.Call) and call_name(c) in ("dict.fromkeys", "set", "sorted") and "cls.context_key" in ast.unparse(c) for c in ast.walk(r))
-        uniq = uniq or filt or whole
-    R.check(has_proc and "cls.context_key" in src, r_ck, NODES, "_ProbeContextInjectorNode.get_created_keys", "context_key + processor's created keys", "probe nodes wrapping a sweep report only their context key while the processor declares <var>_values", f.lineno)
-    R.check(uniq, r_ck, NODES, "_ProbeContextInjectorNode.get_created_keys", "no duplicate when a processor key equals context_key", "when the probe's context_key equals one of the processor's created keys the node reports a duplicate (SVA104 error)", f.lineno)
+    f0 = repo.func(NODES, "_DataOperationNode.get_created_keys")
+    yes, no = returns_reading(node_method(repo, "_DataOperationNode.get_created_keys"), "get_created_keys")
+    R.check(bool(yes) and not no, r_ck, NODES, "_DataOperationNode.get_created_keys", "return cls.processor.get_created_keys()", "operation nodes do not report the keys their processor creates", f0.lineno)
+    f0 = repo.func(NODES, "_ContextProcessorNode.get_created_keys")
+    f = node_method(repo, "_ContextProcessorNode.get_created_keys")
+    yes, no = returns_reading(f, "get_created_keys")
+    R.check(bool(yes) and all(_in_handler(f, r) for r in no), r_ck, NODES, "_ContextProcessorNode.get_created_keys", "return cls.processor.get_created_keys()", "context-processor nodes do not report the keys their processor creates", f0.lineno)
+    f0 = repo.func(NODES, "_PayloadSourceNode.get_created_keys")
+    yes, no = returns_reading(node_method(repo, "_PayloadSourceNode.get_created_keys"), "injected_context_keys")
+    R.check(bool(yes), r_ck, NODES, "_PayloadSourceNode.get_created_keys", "return cls.processor.injected_context_keys()", "payload-source nodes do not report the keys their source injects", f0.lineno)
+    # every node class that publishes the processor's materialised sequences at run time (reads
+    # `_last_created_sequences` in its item processing) must also declare them: its get_created_keys mirrors the
+    # processor's keys next to its own context key, without duplicates.  Sibling classes found by that role.
+    nodes_mod = repo.module(NODES)
+    publishers: List[str] = []
+    for qn, node in nodes_mod.defs.items():
+        if isinstance(node, ast.ClassDef) and "." not in qn:
+            meth = next((st for st in node.body if isinstance(st, FuncNode) and st.name == "_process_single_item_with_context"), None)
+            if meth is not None and any(isinstance(c, ast.Constant) and c.value == "_last_created_sequences" for c in ast.walk(meth)):
+                publishers.append(qn)
+    if not publishers:
+        raise AnalysisError("no node class publishes processor-created sequences (`_last_created_sequences`): anchor vanished")
+    for cname in sorted(publishers):
+        owner = repo.method(nodes_mod, repo.cls(NODES, cname), "get_created_keys")
+        if owner is None:
+            R.violation(r_ck, NODES, cname, "get_created_keys", "the node publishes processor-created sequences but has no get_created_keys", 0)
+            continue
+        oq = qualname_of(owner[1])
+        f0 = repo.func(NODES, oq)
+        f = node_method(repo, oq)
+        yes, no = returns_reading(f, "get_created_keys")
+        has_proc = bool(yes) and not no
+        all_rets = [n for n in walk_no_nested(f) if isinstance(n, ast.Return)]
+        has_key = bool(all_rets) and all(any(isinstance(n, ast.Attribute) and n.attr == "context_key" and isinstance(n.value, ast.Name) and n.value.id == "cls" for n in _flow(f, r.value)) for r in all_rets)
+        uniq = False
+        for ret in all_rets:
+            nodes = _flow(f, ret.value)
+            # context_key + [k for k in processor_keys if k != cls.context_key]  /  dedupe over the whole list
+            filt = any(isinstance(c, ast.Compare) and len(c.ops) == 1 and "cls.context_key" in slice_text(f, c) and _is_filter(c) == ("drop" if isinstance(c.ops[0], (ast.Eq, ast.In)) else "keep" if isinstance(c.ops[0], (ast.NotEq, ast.NotIn)) else "?") for c in nodes)
+            whole = any(isinstance(c, ast.Call) and call_name(c) in ("dict.fromkeys", "set", "sorted") and "cls.context_key" in slice_text(f, c) for c in nodes)
+            uniq = uniq or filt or whole
+        R.check(has_proc and has_key, r_ck, NODES, f"{cname}.get_created_keys" if oq.startswith(cname) else f"{cname}.get_created_keys (inherited from {oq})", "context_key + processor's created keys", "the node writes the swept processor's <var>_values into the context at run time but declares only its own context key: created keys do not mirror the processor", f0.lineno)
+        if has_proc:
+            R.check(uniq, r_ck, NODES, f"{cname}.get_created_keys", "no duplicate when a processor key equals context_key", "when the node's context_key equals one of the processor's created keys the node reports a duplicate (SVA104 error)", f0.lineno)
     # SVA107: registry must be able to answer membership for every live generated class
     r_reg = R.rule("C16-D3-registry-coherence", "every generated component class is registered under its component_type in a per-class (not per-name) container, so the registry-coherence rule holds for all live generated classes", 2)
     mi = repo.func(COMP, "_SemantivaComponentMeta.__init__")
